@@ -172,3 +172,44 @@ func VerifSVGViewBox(n int) {
 	vOutputBool("err", err != nil)
 	vReach("end")
 }
+
+// VerifSVGViewBoxValues (C05): viewBox with k = 1..6 numbers (each 1.0 or -2) separated by a space or a comma: the
+// output attribute lists the same k numbers (a viewBox with another count than four is in error and must stay so).
+func VerifSVGViewBoxValues(n int) {
+	k := 1 + vChoice("k", 6)
+	var v []byte
+	var want []string
+	for i := 0; i < k; i++ {
+		if i > 0 {
+			v = append(v, []byte{' ', ','}[vChoice("s"+string(rune('0'+i)), 2)])
+		}
+		num := []string{"1.0", "-2"}[vChoice("v"+string(rune('0'+i)), 2)]
+		v = append(v, num...)
+		want = append(want, []string{"1", "-2"}[vB2I(num == "-2")])
+	}
+	in := append(append([]byte("<svg viewBox=\""), v...), "\" width=\"9\"/>"...)
+	w := &vWriter{}
+	err := (&Minifier{}).Minify(minify.New(), w, &vReader{b: in}, nil)
+	vReach("after-call")
+	vOutput("out", w.buf)
+	vAssert(err == nil, "accepted")
+	val, found := rsAttrValue(w.buf, "viewBox")
+	vAssert(found, "attribute kept")
+	var got []string
+	cur := []byte{}
+	for _, c := range append(append([]byte(nil), val...), ' ') {
+		if c == ' ' || c == ',' {
+			if len(cur) > 0 {
+				got = append(got, string(cur))
+				cur = cur[:0]
+			}
+		} else {
+			cur = append(cur, c)
+		}
+	}
+	vAssert(len(got) == len(want), "same number of values")
+	for i := range want {
+		vAssert(got[i] == want[i] || got[i] == want[i]+".0", "same values")
+	}
+	vReach("end")
+}
